@@ -50,6 +50,19 @@ def reach(g, d, method, max_execs, r):
             rep = TreeBasedRepresentation(g, MaxDepthDecider(src, g, max(d, g.get_min_tree_depth())))
             inds = list(FullInitializer(max_depth=d).initialize(None, rep, src, 1))
             return inds[0].genotype
+        if method == "grow-after-initialisers":
+            # the representation first serves two initialisers (each brings deciders of its own, on another source), then
+            # creates with its own decider: the reachable set is still exactly L(G,d)
+            from geneticengine.representations.tree.operators import GrowInitializer
+            from mc.explorer import ExhaustiveSource as _ES
+
+            rep = make_rep("tree", g, src, d)
+            for init in (GrowInitializer(), FullInitializer(max_depth=max(d, g.get_min_tree_depth()))):
+                try:
+                    list(init.initialize(None, rep, _ES((), strict=False), 1))
+                except Exception:  # noqa -- what initialisers may refuse is C03's business
+                    pass
+            return rep.create_genotype(src)
         dec = {"grow": "maxdepth", "pigrow": "pigrow", "fulldecider": "full"}[method]
         return make_rep("tree", g, src, d, decider=dec).create_genotype(src)
 
@@ -143,6 +156,8 @@ def run_unit(unit) -> UnitResult:
             w = {"unit": {"spec": spec, "cap": unit["cap"], "max_execs": unit["max_execs"], "max_extra_depth": unit["max_extra_depth"]},
                  "depth": d}
             methods = ["grow", "pigrow"] + (["full"] if all_rec else [])
+            if unit.get("siblings"):
+                methods = ["grow", "grow-after-initialisers"]
             for method in methods:
                 try:
                     progs, errors, trunc = reach(g, d, method, unit["max_execs"], r)
@@ -173,12 +188,12 @@ def run_unit(unit) -> UnitResult:
                     r.add_violation(Violation(PROP, f"create[{method}]", "reachable-outside-language", {"method": method},
                                               dict(w, method=method, choices=list(progs[t]), program=R.show(t)),
                                               f"{spec['name']} d={d} {method}: produced {R.show(t)[:200]} which is not in L(G,{d}) (|L|={len(L)})"))
-                if method == "grow":
+                if method in ("grow", "grow-after-initialisers"):
                     missing = L - got
                     if missing:
                         t = sorted(missing, key=lambda x: (R.term_depth(x), repr(x)))[0]
                         cause = "empty-list-at-depth-frontier" if all(has_empty_list(x) for x in missing) else "other"
-                        r.add_violation(Violation(PROP, "create[grow]", "unreachable-valid-program", {"method": method, "cause": cause},
+                        r.add_violation(Violation(PROP, "create[grow]", "unreachable-valid-program", {"method": "grow", "cause": cause, "after_initialisers": method != "grow"},
                                                   dict(w, method=method, program=R.show(t), missing=len(missing)),
                                                   f"{spec['name']} d={d} grow: {len(missing)} of {len(L)} valid programs are unreachable, e.g. {R.show(t)[:200]}"))
                 if method == "full":
